@@ -133,6 +133,26 @@ def _exec_history(case):
     frozen = False
     did = []
     wk = "q8" if wq.bits == 8 else "qbits"
+    # a second probe: the same batch handed over ALREADY quantized (as a previous quantized module would) with a scale of its own
+    probe_q = None
+    if aq is not None:
+        from optimum.quanto import quantize_activation
+
+        s_q = (probe.abs().max() / 90.0).to(dtype)
+        probe_q = quantize_activation(probe, aq, torch.where(s_q > 0, s_q, torch.ones_like(s_q)))
+
+    def run_probes(m):
+        with torch.no_grad():
+            ys = [cut(m, probe)]
+            if probe_q is not None:
+                ys.append(cut(m, probe_q))
+        for y in ys:
+            if isinstance(y, Raised):
+                return y
+        return ys
+
+    def same_outputs(a, b):
+        return len(a) == len(b) and all(same_output(x, y) for x, y in zip(a, b))
     for st_ in case["steps"]:
         tag = st_
         if st_ == "forward":
@@ -160,17 +180,15 @@ def _exec_history(case):
             if st_ == "freeze_again" and not frozen:
                 continue
             before_state = flat_state(model)
-            with torch.no_grad():
-                y0 = cut(model, probe)
+            y0 = run_probes(model)
             r = cut(freeze, model)
             if isinstance(r, Raised):
                 return out.fail(f"freeze-raises:{r.type}/{wk}", r.text)
-            with torch.no_grad():
-                y1 = cut(model, probe)
+            y1 = run_probes(model)
             if isinstance(y0, Raised) or isinstance(y1, Raised):
                 return out.fail(f"forward-around-freeze-raises/{wk}", f"{y0} / {y1}")
             again = frozen
-            if not same_output(y0, y1):
+            if not same_outputs(y0, y1):
                 out.fail(f"{'freeze_again' if again else 'freeze'}/{wk}/output-changed", f"outputs immediately before and after {'a second ' if again else ''}freeze() differ ({case['wq']}, act {case['aq']}, {case['dtype']}, {fam})")
             after_state = flat_state(model)
             if again:
@@ -193,8 +211,7 @@ def _exec_history(case):
             check_frozen_storage(out, model, wq, "freeze")
             frozen = True
         elif st_ in ("deepcopy", "to_cpu_copy", "reload", "continue_on_copy"):
-            with torch.no_grad():
-                y0 = cut(model, probe)
+            y0 = run_probes(model)
             if isinstance(y0, Raised):
                 return out.fail(f"forward-raises:{y0.type}/{'frozen' if frozen else 'unfrozen'}", y0.text)
             if st_ == "reload" and "channels_last" in did:
@@ -215,11 +232,10 @@ def _exec_history(case):
             if isinstance(m2, Raised):
                 hist = "after-calibration-with-grad" if "calibrate-grad" in did else "plain"
                 return out.fail(f"{st_.replace('continue_on_copy', 'deepcopy')}-raises:{m2.type}/{wk}/{hist}", f"{m2.text} ({'frozen' if frozen else 'unfrozen'}, steps so far {did})")
-            with torch.no_grad():
-                y1 = cut(m2, probe)
+            y1 = run_probes(m2)
             if isinstance(y1, Raised):
                 return out.fail(f"{st_}/copy-forward-raises:{y1.type}", y1.text)
-            if not same_output(y0, y1):
+            if not same_outputs(y0, y1):
                 out.fail(f"{st_.replace('continue_on_copy', 'deepcopy')}/{wk}/output-changed", f"the copy's outputs differ from the source model's ({'frozen' if frozen else 'unfrozen'}, {case['wq']}, act {case['aq']})")
             if frozen:
                 check_frozen_storage(out, m2, wq, st_.replace("continue_on_copy", "deepcopy"))
